@@ -311,6 +311,31 @@ func (c *Ctx) ff0(role string) string {
 			return ""
 		}
 		return find(ctor, want, 0)
+	case "headers", "comments", "preamble":
+		m := map[string]string{"headers": "HeaderComment", "comments": "PackageComment", "preamble": "CgoPreamble"}[role]
+		if f := c.method("File", m); f != nil {
+			var find func(f *ssa.Function, depth int) string
+			find = func(f *ssa.Function, depth int) string {
+				for _, b := range f.Blocks {
+					for _, in := range b.Instrs {
+						if st, ok := in.(*ssa.Store); ok {
+							if fl := fieldOf(st.Addr); strings.HasPrefix(fl, "jen.File.") {
+								return strings.TrimPrefix(fl, "jen.File.")
+							}
+						}
+					}
+				}
+				if depth < 2 {
+					for _, cal := range c.staticCallees(f) {
+						if r := find(cal, depth+1); r != "" {
+							return r
+						}
+					}
+				}
+				return ""
+			}
+			return find(f, 0)
+		}
 	case "defname", "defalias":
 		for i := 0; i < ft.NumFields(); i++ {
 			if ft.Field(i).Name() != c.ff("imports") {
